@@ -137,13 +137,13 @@ def run(ctx):
         L = ctx.pick(3, 4)
         nt = lambda e, p: len(p[0]["args"][1]) > 0
         t0 = time.time()
+        # the core alphabet at full length, the long-tail tokens one token shorter
         paths = W.mc_states(ctx, "webstatic", "StaticPath", "MC_StaticPath.cfg",
-                            overrides={"GenToks": set(ctx.pick(toks_q, toks_all)), "PathLen": L}, required_actions=["request"])
+                            overrides={"GenToks": set(toks_q), "PathLen": L}, required_actions=["request"])
         ctx.replay(paths, replayer, nontrivial=nt)
-        if ctx.quick:        # the long-tail tokens at length 2 in the quick tier
-            paths2 = W.mc_states(ctx, "webstatic", "StaticPath", "MC_StaticPath.cfg",
-                                 overrides={"GenToks": set(toks_all), "PathLen": 2}, required_actions=["request"])
-            ctx.replay(paths2, replayer, nontrivial=nt)
+        paths2 = W.mc_states(ctx, "webstatic", "StaticPath", "MC_StaticPath.cfg",
+                             overrides={"GenToks": set(toks_all), "PathLen": L - 1}, required_actions=["request"])
+        ctx.replay(paths2, replayer, nontrivial=nt)
         ctx._phase("mc+s2c", t0)
         ctx.cov["exhaustive"] = True
         n = ctx.pick(300, 4000)
@@ -155,10 +155,10 @@ def run(ctx):
                      sig_fn=lambda t, bad, l: {"method": bad["args"][0], "obs_kind": bad["obs"]["kind"],
                                                "twin_kind": bad["twin"]["kind"], "codes": [bad["code"], bad["code2"]]} if bad else {})
         ctx._phase("c2s", t0)
-        ctx.cov["rule"] = ("requests: every path of <= %d tokens over the %d-token alphabet x GET/HEAD x default_filename on/off, each "
+        ctx.cov["rule"] = ("requests: every path of <= %d tokens over the 14-token core alphabet (<= %d over all 23 tokens) x GET/HEAD x default_filename on/off, each "
                            "on the tree with and without files outside the root; random recorded request sequences (25 requests "
                            "each, paths of <= 8 segments with per-character escapes); distinct = distinct (config, method, path); "
-                           "non-trivial = non-empty path" % (L, len(ctx.pick(toks_q, toks_all))))
+                           "non-trivial = non-empty path" % (L, L - 1))
         ctx.cov["trusted_base"] += ["harness/httpsim.split_responses (transport splitter)", "real file system under /tmp (scratch tree)"]
     finally:
         _drop_trees()
